@@ -13,7 +13,9 @@ META = dict(
          "receives the faulty bytes, the outer two send two valid keep-alive requests each; serviceAll is called repeatedly.  Required: "
          "serviceAll never raises, the healthy connections receive exactly their correct responses in both rounds, and the faulty connection "
          "ends up answered, still waiting, or closed and removed.  Client: a real Patron sends a request to a harness-played server that answers "
-         "with the faulty bytes; serviceAll must never raise.  Content-Length family: a valid message whose Content-Length value is every single-byte mutation of '12' - "
+         "with the faulty bytes; serviceAll must never raise.  Chunk-size family: a chunked message whose first chunk-size line is a signed or otherwise odd "
+         "hex number (-1 -5 -ff +5 -0 '-5;ext=1' 0x5 5_0 huge ...), to Valet, Porter and Patron.  Every execution runs under a watchdog (3 s, a hit "
+         "is confirmed once with 15 s): a service call that never returns is the violation 'hangs'.  Content-Length family: a valid message whose Content-Length value is every single-byte mutation of '12' - "
          "delete, duplicate, replace by the C32 bytes and by EVERY byte 0x80-0xFF at each position, high bytes inserted at every position "
          "(0xB2 0xB3 0xB9 decode to superscript digits, 0xBC-0xBE to fractions), signed / grouped / hex / padded forms - delivered to the middle "
          "connection of the Valet and of the Porter and to the Patron; same oracle.  Charset family: a valid JSON message whose Content-Type charset is every single-byte mutation of 'utf-8' "
@@ -32,7 +34,22 @@ import os
 import sys
 import traceback
 
-from mc import core, net
+from mc import core, net, split
+
+SHORT, LONG = 3.0, 15.0       # seconds: one execution normally takes 1-5 ms
+_HANG = {}
+
+
+def run_guarded(execute, *args, **kw):
+    """One execution under a watchdog.  -> (outcome, violation) like the executors; a service call
+    that never returns becomes the violation '<Target>|hangs|<function it spins in>'."""
+    res, hang = split.guarded(lambda: execute(*args, **kw), SHORT, LONG, _HANG)
+    if hang is None:
+        return res
+    target = {"server_exec": "Valet", "porter_exec": "Porter", "client_exec": "Patron"}[execute.__name__]
+    return "hangs", ("%s|hangs|%s" % (target, split.stuck_in(hang, "/ioflo/aio/")),
+                     "%s.serviceAll never returns (no progress for %.0f s, confirmed with %.0f s): the service loop spins in %s, "
+                     "so no connection is served any more" % (target, SHORT, LONG, split.stuck_in(hang, "/ioflo/aio/")))
 
 SERVER_ADDR = ("127.0.0.1", 8080)
 FAKE_SERVER = ("127.0.0.1", 8081)
@@ -388,9 +405,9 @@ def work_oversize(item):
     else:
         label, seed, closes = RSP_SEEDS[si]
         execute = client_exec
-    with core.watchdog(900):
+    if True:   # every execution runs under its own watchdog (run_guarded)
         for desc, recipe, pieces in oversize_cases(seed, side == "server", limit, maxheaders):
-            out, viol = execute(FSM, pieces, closes)
+            out, viol = run_guarded(execute, FSM, pieces, closes)
             part.evaluations += 1
             part.nontrivial(repr((side, label, desc)))
             over = "over" if ("limit+1" in desc or "2*limit" in desc or "max+1" in desc or "2*max" in desc) else "within"
@@ -483,15 +500,15 @@ def work_charset(item):
     part = core.Part()
     ctype = b"application/json" if variant == "json" else b"text/plain"
     dictable = None if variant == "json" else True
-    with core.watchdog(600):
+    if True:   # every execution runs under its own watchdog (run_guarded)
         for desc, cs in charsets():
             head = b"Content-Type: " + ctype + b"; charset=" + cs + b"\r\nContent-Length: " + str(len(JSON_BODY)).encode() + b"\r\n\r\n"
             if side == "client":
                 data = b"HTTP/1.1 200 OK\r\n" + head + JSON_BODY
-                out, viol = client_exec(FSM, data, False, dictable=dictable)
+                out, viol = run_guarded(client_exec, FSM, data, False, dictable=dictable)
             else:
                 data = b"POST /k HTTP/1.1\r\n" + head + JSON_BODY
-                out, viol = porter_exec(FSM, data, dictable)
+                out, viol = run_guarded(porter_exec, FSM, data, dictable)
             fault = "charset=%s (%s, %s)" % (desc, "json content type" if variant == "json" else "dictable, text/plain", side)
             part.evaluations += 1
             part.nontrivial(repr((side, variant, cs)))
@@ -539,14 +556,14 @@ def work_contentlength(item):
     target = item[0]
     FSM = setup()
     part = core.Part()
-    with core.watchdog(600):
+    if True:   # every execution runs under its own watchdog (run_guarded)
         for desc, val in content_lengths():
             if target == "client":
                 data = b"HTTP/1.1 200 OK\r\nContent-Type: text/plain\r\nContent-Length: " + val + b"\r\n\r\n" + CL_BODY
-                out, viol = client_exec(FSM, data, False)
+                out, viol = run_guarded(client_exec, FSM, data, False)
             else:
                 data = b"POST /k HTTP/1.1\r\nHost: h\r\nContent-Length: " + val + b"\r\n\r\n" + CL_BODY
-                out, viol = server_exec(FSM, data, False) if target == "valet" else porter_exec(FSM, data, None)
+                out, viol = run_guarded(server_exec, FSM, data, False) if target == "valet" else run_guarded(porter_exec, FSM, data, None)
             fault = "Content-Length %s (%s)" % (desc, target)
             part.evaluations += 1
             part.nontrivial(repr((target, "content-length", val)))
@@ -556,6 +573,36 @@ def work_contentlength(item):
                 part.violation(group, fault, "%s receives %r: %s" % (target, data, what),
                                dict(side=target, family="content-length", value=val, bytes=data, what=what))
         part.sample(dict(side=target, family="content-length", value=val, bytes=data, outcome=out))
+    return part
+
+
+# --------------------------------------------------------------------------- signed / odd chunk sizes
+
+CHUNK_SIZES = [b"-1", b"-5", b"-ff", b"+5", b"-0", b"+0", b"-5;ext=1", b" -5", b"- 5", b"--5", b"0x5", b"5_0", b"-",
+               b"+", b"ffffffffffffffff", b"-ffffffffffffffff", b"5 5", b"\xb25"]
+
+
+def work_chunksize(item):
+    target = item[0]
+    FSM = setup()
+    part = core.Part()
+    for val in CHUNK_SIZES:
+        tail = b"Transfer-Encoding: chunked\r\n\r\n" + val + b"\r\nhello\r\n0\r\n\r\n"
+        if target == "client":
+            data = b"HTTP/1.1 200 OK\r\nContent-Type: text/plain\r\n" + tail
+            out, viol = run_guarded(client_exec, FSM, data, False)
+        else:
+            data = b"POST /k HTTP/1.1\r\nHost: h\r\n" + tail
+            out, viol = run_guarded(server_exec, FSM, data, False) if target == "valet" else run_guarded(porter_exec, FSM, data, None)
+        fault = "chunk-size %r (%s)" % (val.decode("latin-1"), target)
+        part.evaluations += 1
+        part.nontrivial(repr((target, "chunk-size", val)))
+        part.outcome("%s:chunk-size:%s" % (target, out))
+        if viol is not None:
+            group, what = viol
+            part.violation(group, fault, "%s receives %r: %s" % (target, data, what),
+                           dict(side=target, family="chunk-size", value=val, bytes=data, what=what))
+    part.sample(dict(side=target, family="chunk-size", value=val, bytes=data, outcome=out))
     return part
 
 
@@ -612,6 +659,8 @@ def setup():
 def work(item):
     if item[0].endswith("-oversize"):
         return work_oversize((item[0].split("-")[0], item[1]))
+    if item[0].endswith("-chunksize"):
+        return work_chunksize((item[0].split("-")[0],))
     if item[0].endswith("-contentlength"):
         return work_contentlength((item[0].split("-")[0],))
     if item[0].endswith("-charset"):
@@ -626,10 +675,10 @@ def work(item):
         label, seed, closes = RSP_SEEDS[si]
         execute = client_exec
     seen = set()
-    with core.watchdog(600):
+    if True:   # every execution runs under its own watchdog (run_guarded)
         if kind == KINDS[0]:
             # non-vacuity: the unmutated seed must be served / accepted
-            out, viol = execute(FSM, seed, closes)
+            out, viol = run_guarded(execute, FSM, seed, closes)
             part.evaluations += 1
             part.outcome("%s:seed:%s" % (side, out))
             if viol is not None or out not in ("answered", "answered+closed", "response-200", "response-204", "events", "response-302",
@@ -643,7 +692,7 @@ def work(item):
             if data == seed and not kind.startswith("trunc") or key in seen:
                 continue
             seen.add(key)
-            out, viol = execute(FSM, data, close_after)
+            out, viol = run_guarded(execute, FSM, data, close_after)
             part.evaluations += 1
             part.nontrivial(repr((side, label, data, close_after)))
             part.outcome("%s:%s:%s" % (side, kind if kind.startswith("trunc") else "mutation", out))
@@ -666,6 +715,7 @@ def run():
     # oversize payloads are 64-128 KiB each: dispatch them first, merge them last
     over = [("server-oversize", i, None) for i in range(len(REQ_SEEDS))] + [("client-oversize", i, None) for i in range(len(RSP_SEEDS))]
     items += [(t + "-contentlength", 0, None) for t in ("valet", "porter", "client")]
+    items += [(t + "-chunksize", 0, None) for t in ("valet", "porter", "client")]
     items += [(side + "-charset", variant, None) for side in ("client", "server") for variant in ("json", "dictable")]
     res = core.pmap(work, over + items)
     ck.merge(res[len(over):] + res[:len(over)])
@@ -684,6 +734,8 @@ def run():
         "delivery arrives two service passes after the first; a line of exactly MAX_LINE_SIZE bytes may be served or rejected, only the oracle above is judged",
         "charset family: whether the body is decoded, left undecoded (data None) or the message rejected is not judged; only 'the service call "
         "never raises' and 'the Porter's other connections get their echo' are",
+        "a service call that does not return within 3 s of wall time, and again not within 15 s when the same execution is repeated, is a hang "
+        "(one execution normally takes milliseconds); wall time is used only for this liveness verdict",
         "the store clock advances 0.05 s per service call, far below the 5 s connection timeout, so no time-out closes interfere",
     ]
     return ck.finish(
